@@ -77,7 +77,7 @@ func init() {
 
 	Engines["C06"] = chainEngine("C06", &sim.ChainCfg{Crash: true, NoStepOrcl: true, RealMiner: true},
 		func(tier string) *sim.GenParams {
-			return &sim.GenParams{Mix: sim.OpMix{"tx": 6, "kvtx": 4, "mine": 5, "deliver": 5, "walk": 2, "truncate": 1, "respend": 1}, MaxSteps: steps(tier, 10, 14), MaxNodes: 2, Windows: []int{0, 2}, MapOrders: true, SmallCache: true, NoTinyUtxo: true}
+			return &sim.GenParams{Mix: sim.OpMix{"tx": 6, "kvtx": 4, "mine": 5, "deliver": 5, "walk": 2, "truncate": 1, "respend": 1}, MaxSteps: steps(tier, 10, 14), MaxNodes: 2, Windows: []int{0, 2}, MapOrders: true, SmallCache: true, NoTinyUtxo: true, CatchUpMotif: true}
 		}, "", func(st *sim.RunStats) bool { return st.Probes["crash-image-synced"] > 3 })
 	Engines["C06"].Level = "fault_enumeration"
 
